@@ -86,7 +86,9 @@ class ReqC08Enum(Part):
         shape = rng.choice(["single", "single", "merge", "merge", "tree", "adopt"])
         hra = rng.randrange(2)
         ks = [4, 4, 4, 6, 8]
+        scale = maxflips / 5.0      # longer streams for larger coin trees (the prefix with <= maxflips coins is used)
         def ups(sid, m, lo=0, hi=60):
+            m = int(m * scale)
             style = rng.choice(["random", "sorted", "reversed", "dups"])
             if style == "random":
                 xs = [rng.randrange(lo, hi) for _ in range(m)]
@@ -139,7 +141,7 @@ class ReqC08Enum(Part):
         if tier == "quick":
             plan = [(8, 26), (10, 10), (12, 4)]
         else:
-            plan = [(8, 150), (10, 80), (12, 40), (14, 12), (16, 3)]
+            plan = [(8, 100), (10, 40), (12, 12), (14, 2)]      # ~150k leaves per side (kept in memory by the runner)
         hs = []
         for mf, cnt in plan:
             for _ in range(cnt):
@@ -176,10 +178,29 @@ class ReqC08Enum(Part):
                 continue
             ys = sorted(set(t))
             ys = ys + [ys[-1] + 1] if ys else []
-            for inc in (True, False):
-                for y in ys:
-                    tot = sum(weight_below(v[sid], y, inc) for _, v in leaves)
-                    tc = sum(1 for x in t if ((x <= y) if inc else (x < y)))
+            # one pass per leaf: weight below every y, both criteria (two-pointer walk over the sorted view)
+            tot_inc = [0] * len(ys)
+            tot_exc = [0] * len(ys)
+            for _, v in leaves:
+                view = v[sid]
+                i = 0          # entries with item <  y consumed
+                j = 0          # entries with item <= y consumed
+                cum_lt = cum_le = 0
+                nv = len(view)
+                for k, y in enumerate(ys):
+                    while i < nv and view[i][0] < y:
+                        cum_lt = view[i][1]; i += 1
+                    if j < i:
+                        j = i; cum_le = cum_lt
+                    while j < nv and view[j][0] <= y:
+                        cum_le = view[j][1]; j += 1
+                    tot_exc[k] += cum_lt
+                    tot_inc[k] += cum_le
+            st = sorted(t)
+            import bisect
+            for k, y in enumerate(ys):
+                for inc, tot in ((True, tot_inc[k]), (False, tot_exc[k])):
+                    tc = bisect.bisect_right(st, y) if inc else bisect.bisect_left(st, y)
                     if tot != (2 ** F) * tc:
                         key = "req-biased"
                         if model_classify(hist):
@@ -205,7 +226,7 @@ class ReqC08Enum(Part):
 class ReqC08Long(c07req.ReqC07Part):
     """long histories, recorded coins on both sides: flips consumed and every coin-independent observable equal the model's"""
     name = "req-long"
-    sizes = dict(quick=(12, [600, 1500]), thorough=(60, [2000, 6000, 12000]))
+    sizes = dict(quick=(12, [600, 1500]), thorough=(24, [2000, 6000, 12000]))
     C08_KEYS = ("flips-decreased", "rank-bounds-do-not-bracket", "rank-outside-unit-interval", "unexpected-throw", "bad-observation")
 
     def oracle(self, hist, impl_out):
@@ -218,12 +239,15 @@ PART_LONG = ReqC08Long()
 
 CLAIM_TEXT = ("REQ: kernel-checked theorems about the Lean model of req_compactor/req_sketch over ALL histories (any number of live sketches, "
               "updates, merges, copies, queries), every k and both modes: the number of coins drawn, the level of every draw and every shape "
-              "(level sizes, section parameters, state counters) are independent of the coin values; the sum over all 2^F coin vectors of the "
-              "weight below any y (any predicate on items) equals 2^F times the true count for every history in which no compactor performs "
-              "an odd-state compaction with a coin that derives from no draw (decidable, coin-independent hypothesis). The unrestricted "
-              "statement is FALSE as coded (req_compactor::merge adopts an odd state but keeps the constant initial coin): witness theorem, "
-              "replayed on the real code by whole-coin-tree enumeration, proposed fix. Tie: for short histories the multisets of leaves over "
-              "EVERY coin vector (implementation vs model) are equal and the implementation's leaves satisfy the integer identity.")
+              "(level sizes, section parameters, state counters, n, extremes) are independent of the coin values (req_flips_shape_only); the "
+              "sum over all 2^F coin vectors of the weight of the retained items satisfying ANY predicate (in particular <= y and < y, i.e. "
+              "the rank numerator) equals 2^F times the true count (req_unbiased_partial / req_unbiased_rank) for every history in which no "
+              "odd-state compaction flips a coin that derives from no draw -- a decidable, coin-independent hypothesis that holds for every "
+              "history without merges (req_unbiased_streams). The unrestricted statement is FALSE as coded (req_compactor::merge adopts an odd "
+              "state but keeps the constant initial coin): req_unbiased_full_false with a 53-op witness evaluated by the kernel over all coin "
+              "vectors, replayed on the real code by whole-coin-tree enumeration, proposed fix. Tie: for short histories the multisets of "
+              "leaves over EVERY coin vector (implementation vs model) are equal and the implementation's leaves satisfy the integer identity "
+              "and have equal flip counts; long histories run with recorded coins on both sides.")
 
 
 class C08Req(Spec):
@@ -231,7 +255,7 @@ class C08Req(Spec):
     props_modules = ["DSProofs.Props.C08_Req"]
     tfamilies = ["req"]
     rule = ("REQ part: short histories (1-4 sketches, k 4-8, both modes, single stream / two-way merge / adopt-after-compaction / merge "
-            "trees with copies) truncated to <= maxflips coins (8/10/12 quick, up to 16 thorough), EVERY coin vector enumerated on "
+            "trees with copies) truncated to <= maxflips coins (8/10/12 quick, up to 14 thorough), EVERY coin vector enumerated on "
             "implementation and model, leaves compared as sorted multisets; plus long histories with 600 recorded coins; non-trivial = at "
             "least one flip; distinct = (ops, flips, structure, content hash)")
     trusted_base = c07req.C07Req.trusted_base
